@@ -86,7 +86,7 @@ func (c *FCtx) numberSites(fi *FuncInfo) {
 	})
 	// every anchor of the contract must exist in the function (a vanished anchor would silently drop its clauses)
 	if c.Contract != nil {
-		have := map[string]bool{"return": true}
+		have := map[string]bool{"return": true, "entry": true}
 		for _, o := range c.callOrd {
 			have["call "+o] = true
 			have["before call "+o] = true
@@ -274,6 +274,14 @@ func (w *World) verifyFuncMode(fi *FuncInfo, ct *Contract, defaultSafety bool, p
 		c.Obls = append(c.Obls, cov)
 	}
 	st.defers = [][]deferred{nil}
+	if ct != nil && len(ct.Ats) > 0 {
+		// "at entry": ghost initialisation before the first statement (old(...) still means this state)
+		saved := c.specAt
+		c.specAt = fi.Decl.Body.Lbrace
+		c.runAts(e, st, "entry", nil)
+		c.specAt = saved
+		c.entry = st.clone()
+	}
 	outs := e.execBlock(fi.Decl.Body.List, st)
 	nret := 0
 	for _, o := range outs {
